@@ -851,6 +851,15 @@ theorem inv_remove (q : Q K) (id : Nat) (h : Inv q) :
 
 /-! ### refit only touches boxes and flags -/
 
+theorem topoEq_flagParent (q : Q K) (p : Nat) (parents : List Nat) : TopoEq q (flagParent q p parents).1 := by
+  unfold flagParent
+  split
+  · rename_i pn hpn
+    split
+    · exact TopoEq.setNode _ _ pn _ _ hpn rfl rfl rfl rfl
+    · exact TopoEq.refl q
+  · exact TopoEq.refl q
+
 theorem topoEq_refitNode (cur : Nat → Aabb3 K) (margin : K) (first : Bool) (st : Q K × List Nat × Nat) (id : Nat) :
     TopoEq st.1 (refitNode cur margin first st id).1 := by
   obtain ⟨q, parents, num⟩ := st
@@ -863,12 +872,7 @@ theorem topoEq_refitNode (cur : Nat → Aabb3 K) (margin : K) (first : Bool) (st
     · have e1 := TopoEq.setNode q id nd
           ({ nd with dirty := false, changed := true, boxes := (freshBoxes q cur nd).map (loosenBox margin) } : Node K)
           q.dirtyNodes hnd rfl rfl rfl rfl
-      split
-      · rename_i pn hpn
-        split
-        · exact e1.trans (TopoEq.setNode _ _ pn _ _ hpn rfl rfl rfl rfl)
-        · exact e1
-      · exact e1
+      exact e1.trans (topoEq_flagParent _ _ _)
     · exact TopoEq.setNode q id nd _ q.dirtyNodes hnd rfl rfl rfl rfl
 
 theorem topoEq_foldl_refitNode (cur : Nat → Aabb3 K) (margin : K) (first : Bool) (l : List Nat) :
